@@ -3,8 +3,8 @@
 // the source files the property is anchored in, pinned whole (test modules, comments and layout apart): a change to anything in
 // them that is neither under contract nor pinned by name still makes this unit undecided, which sends the check to the
 // property's bounded sweep of the real code
-//@pinfile file=cfgrammar/src/lib/yacc/parser.rs sha=7924a7910fafba2c
+//@pinfile file=cfgrammar/src/lib/yacc/parser.rs sha=6ef477d7cbbde140
 //@pinfile file=cfgrammar/src/lib/yacc/ast.rs sha=b152c25de197a916
-//@pinfile file=cfgrammar/src/lib/yacc/grammar.rs sha=3ccc24d5c8f4f7f7
+//@pinfile file=cfgrammar/src/lib/yacc/grammar.rs sha=b2daa9fc80630f0d
 //@pinfile file=cfgrammar/src/lib/mod.rs sha=acfd5c5d5cc2dfaf
 //@use prelude/tail.rs
